@@ -19,7 +19,7 @@ fn compare(a: &Outcome, b: &Outcome) -> Option<String> {
     None
 }
 
-fn check_case(prog: &T, env: &T, base: ClvmFlags, limit_sweep: bool, acc: &mut Acc, space: &str) {
+fn check_case(ctx: &Ctx, prog: &T, env: &T, base: ClvmFlags, limit_sweep: bool, acc: &mut Acc, space: &str) {
     let canon = |b: u64, hl: usize| format!("prog={} env={} flags={:#x} budget={b} heap_limit={hl}", prog.hex(), env.hex(), base.bits());
     let unlimited = u32::MAX as usize;
     let (cost, need) = with_loaded(prog, env, Enc::Inline, |l| {
@@ -67,6 +67,11 @@ fn check_case(prog: &T, env: &T, base: ClvmFlags, limit_sweep: bool, acc: &mut A
     // heap-limit sweep around the program's need (the wheel's LIMIT_HEAP gives a limited allocator)
     if limit_sweep && cost.is_some() {
         for d in 0..=70usize {
+            if ctx.over_time() {
+                set_capped();
+                acc.inc("heap_limit_sweeps_cut_by_wall_cap");
+                return;
+            }
             for hl in [need.saturating_sub(d), need + d] {
                 if hl == 0 || (d == 0 && hl != need) {
                     continue;
@@ -106,8 +111,9 @@ pub fn run(ctx: &Ctx) -> Report {
     let spaces: Vec<(ProgSpace, bool)> = vec![
         (p_gc(), true),
         (p_gc_after(), true),
-        (p4(ctx.pick(16, 80), false), true),
+        (p4(ctx.pick(16, 24), false), true),
         (p5_full(), false),
+        (p4(ctx.pick(16, 80), false), false),
         (p1("P1", ops, ctx.pick(vec![vec![], vec![1], vec![0x80]], a6()), vec![vec![2u8], vec![11]], 2), false),
         (p2(classic_ops(), vec![vec![1], vec![0x80]]), false),
         (p_vectors(ctx.pick(2, 8)), false),
@@ -126,7 +132,7 @@ pub fn run(ctx: &Ctx) -> Report {
             let (p, e) = sp.at(i / nf);
             let f = bases[(i % nf) as usize];
             // the heap-limit sweep only under the first two base flag sets (cost model does not change allocation)
-            check_case(&p, &e, f, *sweep && (i % nf) < 2, acc, &sp.name);
+            check_case(ctx, &p, &e, f, *sweep && (i % nf) < 2, acc, &sp.name);
             acc.inc("cases");
             acc.maybe_sample(sample_key(seed, i ^ fnv(sp.name.as_bytes())), || json!({"space": sp.name, "prog": p.hex(), "env_bytes": e.ser().len(), "flags": format!("{:#x}", f.bits())}));
         });
